@@ -2,7 +2,7 @@
 //@ crate: aquavm-air
 //@ attach: air/src/preparation_step/preparation.rs
 //@ functions: check_version_compatibility; min_supported_version (once_cell Lazy + semver::Version::from_str); <semver::Version as PartialOrd>::lt; semver::Prerelease::cmp; semver::BuildMetadata::cmp
-//@ stubs: std::thread::current / park -> assume(false), Thread::unpark -> no-op (single-threaded Lazy initialisation never waits); alloc::fmt::format -> empty String
+//@ stubs: <semver::BuildMetadata as Ord>::cmp -> Equal, asserting that both sides are empty (exact for the inputs used); std::thread::current / park -> assume(false), Thread::unpark -> no-op (single-threaded Lazy initialisation never waits); alloc::fmt::format -> empty String
 //@ assumes: build metadata empty; pre-release is empty (c21_release_versions) or the literal "alpha" (c21_prerelease_versions)
 //@ decides: C21: a release version is rejected iff (major,minor,patch) < (0,61,0) lexicographically, for all u64 triples; a pre-release of x.y.z is rejected iff (x,y,z) <= (0,61,0); the minimum is read from the real min_supported_version()
 //@ outside: decoding of the envelope (msgpack), routing of the error to "previous data returned" (runner.rs), other pre-release strings
@@ -12,6 +12,13 @@
 
 use super::*;
 include!("_air_stubs.rs");
+
+/// semver::BuildMetadata::cmp splits and compares identifier strings even when both are empty; in these
+/// harnesses build metadata is always empty, which the stub itself asserts (so it is exact here).
+fn build_cmp_stub(a: &semver::BuildMetadata, b: &semver::BuildMetadata) -> std::cmp::Ordering {
+    kani::assert(a.is_empty() && b.is_empty(), "stub exactness: build metadata is empty on both sides");
+    std::cmp::Ordering::Equal
+}
 
 fn lex_lt(a: (u64, u64, u64), b: (u64, u64, u64)) -> bool {
     a.0 < b.0 || (a.0 == b.0 && (a.1 < b.1 || (a.1 == b.1 && a.2 < b.2)))
@@ -23,6 +30,7 @@ fn lex_lt(a: (u64, u64, u64), b: (u64, u64, u64)) -> bool {
 #[kani::stub(std::thread::park, thread_park_stub)]
 #[kani::stub(std::thread::Thread::unpark, thread_unpark_stub)]
 #[kani::stub(alloc::fmt::format, fmt_stub)]
+#[kani::stub(<semver::BuildMetadata as std::cmp::Ord>::cmp, build_cmp_stub)]
 fn c21_release_versions() {
     let (ma, mi, pa): (u64, u64, u64) = (kani::any(), kani::any(), kani::any());
     let v = Versions {
@@ -43,6 +51,7 @@ fn c21_release_versions() {
 #[kani::stub(std::thread::park, thread_park_stub)]
 #[kani::stub(std::thread::Thread::unpark, thread_unpark_stub)]
 #[kani::stub(alloc::fmt::format, fmt_stub)]
+#[kani::stub(<semver::BuildMetadata as std::cmp::Ord>::cmp, build_cmp_stub)]
 fn c21_prerelease_versions() {
     let (ma, mi, pa): (u64, u64, u64) = (kani::any(), kani::any(), kani::any());
     let mut iv = semver::Version::new(ma, mi, pa);
